@@ -438,8 +438,24 @@ func (t *btr) arith(n ast.Node, op token.Token, ty types.Type, x, y string, rhs 
 		return "(Z.modulo " + x + " " + y + ")"
 	case token.SHL, token.SHR:
 		c, ok := rhsConst()
-		if !ok || constant.Sign(c) < 0 {
-			t.abort(n, "shift by a non-constant count")
+		if ok && constant.Sign(c) < 0 {
+			t.abort(n, "shift by a negative constant")
+		}
+		if !ok {
+			// Non-constant count.  On Z,  x * 2^y  re-wrapped at the type of x  and  floor(x / 2^y)  are Go's
+			// results for EVERY count y >= 0 (counts >= the width give 0, resp. -1 for a negative x);
+			// a negative count of signed type panics.
+			if rhs == nil {
+				t.abort(n, "shift by a non-constant count (op= with a call)")
+			}
+			cty := t.info.Types[rhs].Type
+			_, csigned, cok := width(cty)
+			if !cok {
+				t.abort(n, "shift by a count of type %s", cty)
+			}
+			if csigned {
+				*guards = addGuards(*guards, "0 <=? "+y)
+			}
 		}
 		if op == token.SHL {
 			return t.wrapAt(n, ty, "(Z.shiftl "+x+" "+y+")")
@@ -492,8 +508,11 @@ func (t *btr) callExpr(e *ast.CallExpr, tv types.TypeAndValue) val {
 		if fn, ok := t.info.Uses[f.Sel].(*types.Func); ok {
 			for _, le := range []struct {
 				name, ok, rd string
-			}{{"Uint16", "sl_le16_ok", "le16"}, {"Uint32", "sl_le32_ok", "le32"}} {
+			}{{"Uint16", "sl_le16_ok", "le16"}, {"Uint32", "sl_le32_ok", "le32"}, {"Uint64", "sl_le64_ok", "le64"}} {
 				if isLittleEndian(fn, le.name) {
+					if le.name == "Uint64" {
+						t.usesLe64 = true
+					}
 					x := t.expr(e.Args[0])
 					if x.kind != kSlice || x.ptrN >= 0 {
 						t.abort(e, "LittleEndian.%s of a non-slice", le.name)
@@ -501,6 +520,14 @@ func (t *btr) callExpr(e *ast.CallExpr, tv types.TypeAndValue) val {
 					g := addGuards(addGuards(nil, x.guards...), le.ok+" "+x.term)
 					return val{kind: kZ, term: "(" + le.rd + " " + x.term + " s)", guards: g, memread: true, typ: tv.Type, ptrN: -1}
 				}
+			}
+			if fn.FullName() == "math/bits.TrailingZeros64" && len(e.Args) == 1 {
+				// argument: uint64 (in range by the wraps), result: int in 0..64
+				x := t.expr(e.Args[0])
+				if x.kind != kZ {
+					t.abort(e, "TrailingZeros64 of a non-integer")
+				}
+				return val{kind: kZ, term: "(ctz64 " + x.term + ")", guards: x.guards, memread: x.memread, typ: tv.Type, ptrN: -1}
 			}
 		}
 	}
@@ -535,10 +562,17 @@ func (t *btr) callExpr(e *ast.CallExpr, tv types.TypeAndValue) val {
 // Gallina function.
 func (t *btr) classifyPure(f *bfunc) {
 	fd := f.fd
-	if fd.Recv != nil || len(f.results) != 1 || len(fd.Body.List) != 1 {
+	if fd.Recv != nil || len(f.results) != 1 || len(fd.Body.List) == 0 {
 		return
 	}
-	rs, ok := fd.Body.List[0].(*ast.ReturnStmt)
+	// local constant declarations may precede the return (they are folded by the type checker)
+	for _, st := range fd.Body.List[:len(fd.Body.List)-1] {
+		ds, ok := st.(*ast.DeclStmt)
+		if !ok || ds.Decl.(*ast.GenDecl).Tok != token.CONST {
+			return
+		}
+	}
+	rs, ok := fd.Body.List[len(fd.Body.List)-1].(*ast.ReturnStmt)
 	if !ok || len(rs.Results) != 1 {
 		return
 	}
